@@ -1,9 +1,136 @@
+/-
+C20 — "Do runs all functions concurrently and returns every result and an error".
+
+Model: K/Do (the code emitted by plugin/do: n workers spawned in program order, each runs its function,
+writes its result variable and sends its error on the unbuffered errChan; main receives n times, keeps
+the first non-nil error, returns).  Environment: the user functions, which may rendezvous pairwise with
+each other (`Cfg.pairs`).  All theorems are over `Reachable`, i.e. over EVERY interleaving, for every
+number of functions, every subset failing and every rendezvous list (`WF`: at least one function, every
+rendezvous joins two different functions of the call).
+
+Ties: T4 `skeleton_facts` (the emitted deriveDo has the skeleton K/Do models), T5 trace validation and
+race stress (vlib/props/c20.py).  Partial: memory-level data-race freedom and the faithfulness of the
+channel semantics to the Go runtime are observed (race detector), not proved; `do_no_conflict` proves
+the logical absence of conflicting accesses to the result variables.
+-/
 import GoderiveModel.K.Skeleton
-import GoderiveModel.K.Do
+import GoderiveModel.Lemmas.ConcDo
 
 namespace Goderive.C20
 open Goderive.K
+open Goderive.K.Do
 
+/-- T4: the functions goderive emits now have the skeletons the transition systems were written for. -/
 theorem skeleton_facts : Generated.skeletons = expectedSkeletons := skeleton_matches
+
+/-- Do starts all its argument functions before waiting for any: whenever main is at (any of) its
+receives on errChan — in particular whenever a worker's send can be matched — every function has been
+started.  So no function ever waits for main. -/
+theorem do_all_started_before_wait (c : Cfg) (hwf : WF c) (s : State) (hr : (lts c).Reachable s) :
+    (∀ j, s.pc = .recv j → ∀ i, i < c.n → s.st i ≠ .absent) ∧
+    (∀ i s', (lts c).step s (.xfer i) = some s' → ∀ i', i' < c.n → s.st i' ≠ .absent) := by
+  have hi := inv_reachable c hwf.1 s hr
+  have h1 : ∀ j, s.pc = .recv j → ∀ i, i < c.n → s.st i ≠ .absent := by
+    intro j hj
+    exact hi.started (by intro k h; rw [hj] at h; cases h)
+  refine ⟨h1, ?_⟩
+  intro i s' hs
+  simp only [lts, step] at hs
+  cases hpc : s.pc with
+  | recv j => exact h1 j hpc
+  | spawn k => simp [hpc] at hs
+  | ret => simp [hpc] at hs
+  | done => simp [hpc] at hs
+
+example : ∃ s, (lts { n := 2, val := fun i => 10 + i, err := fun _ => none, pairs := [] }).run
+      (init { n := 2, val := fun i => 10 + i, err := fun _ => none, pairs := [] })
+      [.spawn, .wr 0, .spawn] = some s ∧ s.pc = .recv 0 ∧ s.st 0 = .send ∧ s.st 1 = .run := by
+  refine ⟨_, rfl, ?_, ?_, ?_⟩ <;> decide
+
+/-- Do returns only after every function has returned, with each function's value in its position:
+when main is at its return (or has returned) every worker has written its variable and finished, and
+the returned tuple is exactly (val 0, …, val (n-1)). -/
+theorem do_returns_after_all (c : Cfg) (hwf : WF c) (s : State) (hr : (lts c).Reachable s) :
+    ((s.pc = .ret ∨ s.pc = .done) → ∀ i, i < c.n → s.st i = .fin ∧ s.v i = some (c.val i)) ∧
+    (∀ vs e, s.result = some (vs, e) → vs = (List.range c.n).map (fun i => some (c.val i))) := by
+  have hi := inv_reachable c hwf.1 s hr
+  refine ⟨?_, ?_⟩
+  · intro h i hin
+    have hf := hi.ret_inv h i hin
+    exact ⟨hf, (hi.written i (Or.inr hf)).1⟩
+  · intro vs e hres
+    have := (hi.res (vs, e) hres).2
+    exact (Prod.mk.inj this).1
+
+/-- The error returned is nil exactly when all functions succeeded, and otherwise it is one of the
+errors actually returned by a function. -/
+theorem do_error (c : Cfg) (hwf : WF c) (s : State) (hr : (lts c).Reachable s) :
+    ∀ vs e, s.result = some (vs, e) →
+      (e = none ↔ ∀ i, i < c.n → c.err i = none) ∧
+      (∀ x, e = some x → ∃ i, i < c.n ∧ c.err i = some x) := by
+  have hi := inv_reachable c hwf.1 s hr
+  intro vs e hres
+  obtain ⟨hdone, hr'⟩ := hi.res (vs, e) hres
+  have he : e = s.errVar := (Prod.mk.inj hr').2
+  have hall := hi.ret_inv (Or.inr hdone)
+  refine ⟨⟨?_, ?_⟩, ?_⟩
+  · intro hn i hin
+    exact hi.err_none (he ▸ hn) i hin (hall i hin)
+  · intro hnone
+    cases hev : s.errVar with
+    | none => rw [he, hev]
+    | some x =>
+      obtain ⟨i, hin, _, herr⟩ := hi.err_some x hev
+      rw [hnone i hin] at herr
+      cases herr
+  · intro x hx
+    obtain ⟨i, hin, _, herr⟩ := hi.err_some x (he ▸ hx)
+    exact ⟨i, hin, herr⟩
+
+/-- a complete run of Do with two functions that rendezvous, the second failing: both results in
+position, the error is the second function's -/
+example : ((lts { n := 2, val := fun i => 10 + i, err := fun i => if i = 1 then some 7 else none, pairs := [(1, 0)] }).run
+      (init { n := 2, val := fun i => 10 + i, err := fun i => if i = 1 then some 7 else none, pairs := [(1, 0)] })
+      [.spawn, .spawn, .rv 0, .wr 1, .xfer 1, .wr 0, .xfer 0, .ret]).map (·.result)
+    = some (some ([some 10, some 11], some 7)) := by decide
+
+/-- No conflicting accesses to the result variables: the write of `vᵢ` by worker i and main's read of
+the variables at its return are never both enabled; and two different workers write different
+variables. -/
+theorem do_no_conflict (c : Cfg) (hwf : WF c) (s : State) (hr : (lts c).Reachable s) :
+    ∀ i s1 s2, (lts c).step s (.wr i) = some s1 → (lts c).step s .ret = some s2 → False := by
+  have hi := inv_reachable c hwf.1 s hr
+  intro i s1 s2 h1 h2
+  simp only [lts, step] at h1 h2
+  split at h1
+  · next hc =>
+    split at h2
+    · next hpc =>
+      have := hi.ret_inv (Or.inl hpc) i hc.1
+      rw [hc.2.1] at this
+      cases this
+    · cases h2
+  · cases h1
+
+/-- Progress under every schedule, rendezvousing functions included: in every reachable state in which
+Do has not returned some transition is enabled.  (With the functions started one after the other
+instead, a function waiting for a later one would block for ever: the rendezvous step needs both
+functions running.) -/
+theorem do_progress (c : Cfg) (hwf : WF c) (s : State) (hr : (lts c).Reachable s) (hnf : ¬ final s) :
+    (lts c).Enabled s :=
+  progress c hwf s (inv_reachable c hwf.1 s hr) hnf
+
+/-- three functions in a ring of rendezvous, stuck nowhere: after all are spawned the first rendezvous
+is enabled -/
+example : ((lts { n := 3, val := fun i => i, err := fun _ => none, pairs := [(1, 0), (2, 1)] }).run
+      (init { n := 3, val := fun i => i, err := fun _ => none, pairs := [(1, 0), (2, 1)] })
+      [.spawn, .spawn, .spawn, .rv 0, .wr 0, .rv 1]).isSome = true := by decide
+
+/-- No goroutine is left behind: when Do has returned every worker has finished (its send on the
+unbuffered errChan was matched by one of main's n receives), and nothing else was ever started. -/
+theorem do_no_leak (c : Cfg) (hwf : WF c) (s : State) (hr : (lts c).Reachable s) (hf : final s) :
+    (∀ i, i < c.n → s.st i = .fin) ∧ (∀ i, c.n ≤ i → s.st i = .absent) := by
+  have hi := inv_reachable c hwf.1 s hr
+  exact ⟨hi.ret_inv (Or.inr hf), hi.out_absent⟩
 
 end Goderive.C20
